@@ -68,6 +68,7 @@ class BaseStandaloneNetworkServerImpl(AbstractNetworkServer, Generic[_T_AsyncSer
         "__is_shutdown",
         "__is_closed",
         "__serve_forever_thread_id",
+        "__is_torn_down",
     )
 
     def __init__(
@@ -89,6 +90,8 @@ class BaseStandaloneNetworkServerImpl(AbstractNetworkServer, Generic[_T_AsyncSer
         self.__is_shutdown.set()
         self.__is_closed = _threading.Event()
         self.__serve_forever_thread_id: int | None = None
+        self.__is_torn_down = _threading.Event()
+        self.__is_torn_down.set()
         self.__close_lock = ForkSafeLock()
         self.__bootstrap_lock = ForkSafeLock()
         self.__default_runner_options: dict[str, Any] = dict(runner_options) if runner_options else {}
@@ -143,7 +146,7 @@ class BaseStandaloneNetworkServerImpl(AbstractNetworkServer, Generic[_T_AsyncSer
             if scheduler_is_shutting_down:
                 # serve_forever() is returning and closes the server by itself. Wait for it, so the listeners
                 # are really closed when this method returns.
-                self.__is_shutdown.wait()
+                self.__is_torn_down.wait()
 
     @_utils.inherit_doc(AbstractNetworkServer)
     def shutdown(self, timeout: float | None = None) -> None:
@@ -206,6 +209,8 @@ class BaseStandaloneNetworkServerImpl(AbstractNetworkServer, Generic[_T_AsyncSer
 
             self.__is_shutdown.clear()
             server_exit_stack.callback(self.__is_shutdown.set)
+            self.__is_torn_down.clear()
+            server_exit_stack.callback(self.__is_torn_down.set)
             self.__serve_forever_thread_id = _threading.get_ident()
 
             def reset_values() -> None:
@@ -220,14 +225,18 @@ class BaseStandaloneNetworkServerImpl(AbstractNetworkServer, Generic[_T_AsyncSer
             server_exit_stack.callback(reacquire_bootstrap_lock_on_shutdown)
 
             async def serve_forever() -> None:
-                async with (
-                    self.__server_factory(backend) as self.__server,
-                    backend.create_threads_portal() as self.__threads_portal,
-                ):
-                    # Initialization finished; release the locks
-                    locks_stack.close()
+                try:
+                    async with (
+                        self.__server_factory(backend) as self.__server,
+                        backend.create_threads_portal() as self.__threads_portal,
+                    ):
+                        # Initialization finished; release the locks
+                        locks_stack.close()
 
-                    await self.__server.serve_forever(is_up_event=is_up_event)
+                        await self.__server.serve_forever(is_up_event=is_up_event)
+                finally:
+                    # The listeners are closed: do not make server_close() wait for the event loop's own teardown.
+                    self.__is_torn_down.set()
 
             backend.bootstrap(serve_forever, runner_options=runner_options)
 
